@@ -95,6 +95,14 @@ def check(F, ck, rule, labels=None, floor=30):
                 root = alt[0]
         # inline the named validators / verifiers, and any non-trait helper defined in the same file as one of them (a validator
         # split into sub-validators, a check moved into a helper) - refactorings must not lose pins
+        names = set(names)
+        for n_ in sorted(names):
+            c_ = [f for f in F.fns.values() if f.name == n_ and f.owner is None and f.crate in ('plonky2', 'starky')]
+            if len(c_) == 1:
+                F.record_callee(n_, c_[0].d)
+            rn = F.renamed_callee(n_)
+            if rn:
+                names.add(rn)
         vfiles = {f.file for f in F.fns.values() if f.name in names and f.crate in ('plonky2', 'starky')}
 
         def inl(c, d, ev, names=names, vfiles=vfiles):
